@@ -10,7 +10,9 @@
 package vsync
 
 import (
+	"reflect"
 	"sync"
+	"sync/atomic"
 	"unsafe"
 )
 
@@ -233,12 +235,35 @@ func (p *Pool) Put(v interface{}) {
 	}
 	p.mu.Lock()
 	p.register()
+	if isPointerLike(v) {
+		for _, it := range p.items {
+			if it == v {
+				// the same object is in the pool twice: two later Gets hand it to two users
+				atomic.AddInt64(&doublePuts, 1)
+				break
+			}
+		}
+	}
 	p.items = append(p.items, v)
 	p.mu.Unlock()
 }
 
+var doublePuts int64
+
+// DoublePuts: how often an object was put into a pool that already held it (since the last ResetPools).
+func DoublePuts() int { return int(atomic.LoadInt64(&doublePuts)) }
+
+func isPointerLike(v interface{}) bool {
+	switch reflect.ValueOf(v).Kind() {
+	case reflect.Ptr, reflect.UnsafePointer, reflect.Map, reflect.Chan, reflect.Func:
+		return reflect.TypeOf(v).Comparable()
+	}
+	return false
+}
+
 // ResetPools empties every pool seen so far.
 func ResetPools() {
+	atomic.StoreInt64(&doublePuts, 0)
 	poolsMu.Lock()
 	for _, p := range pools {
 		p.mu.Lock()
